@@ -588,6 +588,9 @@ func C10(x *Ctx, r *core.Result) {
 		"absence of panics in hand-written arithmetic outside the scanner domain: internal/fp/decimal.go indexing (the compiler leaves its bounds checks unproven), growBytesSliceCapacity's make size, StdLibCompatible* recursion depth",
 		"termination of the shift loops in internal/fp (decimal.Shift / floatBits)",
 		"getu4 / unescapeUnicodeChar slicing is decided under C06 (R06d/e)")
+	ri := r.Rule("R10i", "accounting: every index / slice expression in a library function reachable from the API is discharged by the machine rules, by the scanner interpreter (that very expression was judged), by the compiler's bounds-check elimination (absent from its list of unproven checks) or by a local linear argument — none lies outside all analyses")
+	x.boundsAccounting(r, ri)
+	r.CheckFloor(ri, 100)
 	r.Explain = "each clause is a for-all-paths property of the extracted transition systems, of SSA dominance, or of a three-variable linear system; what lies outside the scanner domain is listed as not decided"
 }
 
